@@ -38,10 +38,21 @@ LEVEL_TEXT = ("Proved in Coq at full strength (Properties/C02.v), for every jour
               "ones the parser can produce (postings_syntactic; C02_cells_unsyntactic_refuted shows the model, not knut, needs it).  "
               "C02_table_totals -- the numbers of the Total (A+L) / Total (E+I+E) / Delta lines are the ledger amounts over all A/L "
               "accounts / all others (negated) / all accounts.  "
-              "Not proved: which commodity lines the three total rows list (their numbers and place are proved; Delta = 0 is C01), that "
-              "no amount is stored under the zero date (the criterion for listing a commodity line of an account is stated on the report "
-              "tree, its ledger direction is proved), and the text of the CSV (printed numbers) = ledger_csv; these are compared with the real binary's CSV and the "
-              "model's CSV on every run, which is how the Shorten aliasing defect (fixed in /repo 2f5b0b6) was found.")
+              "Which lines: C02_report_keys -- every amount of the report is stored under (end date of a shown period, commodity), never "
+              "under the zero date or a date that is not a column; for --close this is C02_close_stage_dates (CloseAccounts only appends, "
+              "on a period start, transactions dated on that day; a period start is aligned to its own period end).  "
+              "C02_commodity_line_iff -- the block of an account lists commodity c iff the ledger has a non-zero PERIOD amount for "
+              "(account, c) in some column (both directions; not: a non-zero cumulated cell).  C02_total_lines -- Total (A+L) / Total "
+              "(E+I+E) list exactly the commodities with a non-zero period amount over all A/L / all other accounts in some column, "
+              "ascending; Delta lists the union of the two lists, with the numbers of C02_table_totals.  "
+              "CSV text (with and without -a; the check always passes -a): C02_number_text -- Decimal.String is a function of the value; "
+              "C02_table_row_order -- the account rows are LedgerSpec.all_rows (A/L, then the others); C02_csv_records -- the records of "
+              "the CSV renderer on the table are the rows of ledger_csv, field by field; C02_csv_is_ledger_csv -- balance_csv cfg ds = "
+              "COk text -> text = the rows of ledger_csv joined by commas and newlines.  "
+              "Without -a an unvalued report has no weights, the stable sort moves nothing and the order is the same (proved).  "
+              "Not proved: encoding/csv quoting (outside the model, see Table.v), and -- as everywhere -- that the model is the code: the binary's CSV, "
+              "the model's CSV and ledger_csv are compared on every run, which is how the Shorten aliasing defect (fixed in /repo 2f5b0b6) "
+              "was found.")
 LEVEL_NOTE = ("Trusted: kernel, extraction, harness, the hand-written model (sampled tie to the code). Parser not in the loop (C07). "
               "Cells are compared as rational values (decimal addition is exact); the table-level theorems give the decimal in the "
               "table cell up to cmp = 0, its printed form is part of the byte comparison (and of C17). "
